@@ -73,6 +73,17 @@ func Run(ctx *common.Ctx) int {
 			}
 		}
 		xs = append(xs, 20*a+200, 0.5, 0.999, 1.001, 2, 700, 709.78, 710, 745, 746)
+		// the lower tail: every decade down to 1e-40, every tenth below (small shapes: every decade down to the
+		// subnormals), and the floats around the machine-epsilon scales an implementation may cut off at
+		for k := 1; k <= 323; k++ {
+			if k <= 40 || k%10 == 0 || twoA <= 64 {
+				xs = append(xs, math.Pow(10, -float64(k)), 3*math.Pow(10, -float64(k)))
+			}
+		}
+		for _, e := range []int{-1074, -1022, -149, -126, -64, -54, -53, -52, -51, -27, -26} {
+			c := math.Ldexp(1, e)
+			xs = append(xs, math.Nextafter(c, 0), c, math.Nextafter(c, 1))
+		}
 		sort.Float64s(xs)
 		prev := math.Inf(1)
 		localEvals := 0
@@ -124,7 +135,7 @@ func Run(ctx *common.Ctx) int {
 	cov := common.Coverage{
 		"evaluations":         evals,
 		"distinct_nontrivial": len(shapes),
-		"rule": "a finite lattice, completely: the listed shapes a (integers and half-integers; thorough: all 10000 in [0.5,5000]) x for each a the arguments {0,-0,-1,-inf,5e-324,1e-300,1e-10}, the three floats around 1 and around a, a*r for 24 ratios in 0.01..20, a+d*sqrt(a) for d=-12..40 step 1/2, 20a+200, and the underflow cut-off region 700..746; " +
+		"rule": "a finite lattice, completely: the listed shapes a (integers and half-integers; thorough: all 10000 in [0.5,5000]) x for each a the arguments {0,-0,-1,-inf,5e-324,1e-300,1e-10}, the three floats around 1 and around a, a*r for 24 ratios in 0.01..20, a+d*sqrt(a) for d=-12..40 step 1/2, 20a+200, the underflow cut-off region 700..746, and the lower tail 10^-k, 3*10^-k (every k<=40, every tenth k<=320; every k<=323 for a<=32) with the floats around 2^e for e in {-1074,-1022,-149,-126,-64,-54..-51,-27,-26}; " +
 			"oracle: 192-bit closed forms of Q(a,x) for integer/half-integer a; checks: |Igamc-Q| <= 1e-12+1e-14a, value in [0,1], exactly 1 for x<=0, non-increasing along the lattice up to the allowance; distinct = number of shapes",
 		"samples":                     samples,
 		"shapes":                      len(shapes),
